@@ -80,6 +80,11 @@ def run(ctx, facts):
     ctx.rule("GUARD", C04.RULES["GUARD"]); ctx.rule("EXIT", C04.RULES["EXIT"]); ctx.rule("SEED", C04.RULES["SEED"]); ctx.rule("RESETBEFORE", C04.RULES["RESETBEFORE"])
     C04._setsketch(ctx, facts)
     C04._exit_setsketch(ctx, facts)
+    C04.regvalue_rule(ctx, facts)
+    # the pruning bound must stay below every register, or draws that would raise a register are discarded
+    from . import C05
+    ctx.rule("LOWER", C05.RULES["LOWER"])
+    C05.lower_rules(ctx, facts)
     C13.require_verified_reset(ctx, facts, [C13.FY], "RESETBEFORE")
     C04._resetbefore(ctx, facts, C04.SS + "sketch")
     check_seeds(ctx, facts, "SEED", {C04.SS + "sketch": C04.SEED_TABLE[C04.SS + "sketch"]})
@@ -87,3 +92,59 @@ def run(ctx, facts):
     body = fn["hir"]
     tail = nf.nf(body["expr"]) if "expr" in body else ""
     ctx.info("returned tuple: %s" % tail)
+    ctor_sib(ctx, facts)
+
+
+def ctor_sib(ctx, facts):
+    """CTOR-SIB: SetSketcher::default() builds, field by field, what SetSketcher::new(SetSketchParams::default(), default hasher)
+    builds. The getters of the parameter object are replaced by the literals of SetSketchParams::default() on both sides, so
+    `m = 4096` in one and `params.get_m()` in the other compare equal, and a derived field (lnb = ln b) computed by a different
+    expression in one of the two does not."""
+    import re as _re
+    from ..rulelib import resolver_of
+    ctx.rule("CTOR-SIB", "SetSketcher::default() initialises every field with the same expression over the parameters as "
+                         "SetSketcher::new does (getters of SetSketchParams::default() evaluated to its literals on both sides)")
+    PD = "<setsketcher::SetSketchParams as std::default::Default>::default"
+    SD = "<setsketcher::SetSketcher<I, T, H> as std::default::Default>::default"
+    SN = "setsketcher::SetSketcher::<I, T, H>::new"
+    pfn = facts.fn(PD)
+    D = {}
+    for x in hirq.walk(pfn["hir"]):
+        if x["k"] == "Struct" and hirq.respath(x["res"]).endswith("SetSketchParams"):
+            for f in x["fields"]:
+                g = facts.fns.get("setsketcher::SetSketchParams::get_%s" % f["name"])
+                if g is not None and nf.nf(g["hir"]).strip("{}").strip() == "self.%s" % f["name"]:
+                    v_ = nf.nf(f["e"], True)
+                    D[f["name"]] = v_ if _re.match(r"^[\w.]+$", v_) else "(%s)" % v_
+    if len(D) < 4:
+        ctx.violation("CTOR-SIB", PD, "cannot-establish", hirq.loc(pfn), "SetSketchParams::default() / its getters are not the plain literals and field reads expected (found %s)" % sorted(D))
+        return
+
+    def fields(fid, pattern):
+        fn = facts.fn(fid)
+        R = resolver_of(fn)
+        out = {}
+        for x in hirq.walk(fn["hir"]):
+            if x["k"] == "Struct" and hirq.respath(x["res"]).split("<")[0].endswith("SetSketcher"):
+                for f in x["fields"]:
+                    s_ = nf.nf(f["e"], True, res=R)
+                    out[f["name"]] = _re.sub(pattern, lambda m_: D.get(m_.group(1), m_.group(0)), s_)
+        return fn, out
+    nfn, a = fields(SN, r"\b%s\.get_(\w+)\(\)" % _re.escape(hirq.show_pat(facts.fn(SN)["params"][0]["pat"])))
+    dfn, b = fields(SD, r"std::default::Default::default\(\)\.get_(\w+)\(\)")
+    others = [hirq.show_pat(p["pat"]) for p in nfn["params"][1:]]
+    n = 0
+    for f in sorted(set(a) | set(b)):
+        if f not in a or f not in b:
+            ctx.violation("CTOR-SIB", SD, "field %s" % f, hirq.loc(dfn), "field %s is initialised by only one of new / default" % f)
+            continue
+        if any(_re.search(r"\b%s\b" % _re.escape(o), a[f]) for o in others):
+            continue        # taken from another argument of new (the hasher)
+        n += 1
+        if a[f] == b[f]:
+            ctx.ok("CTOR-SIB", SD, "%s = %s in both constructors" % (f, a[f][:60]), hirq.loc(dfn))
+        else:
+            ctx.violation("CTOR-SIB", SD, "field %s differs from new" % f, hirq.loc(dfn),
+                          "SetSketcher::default() initialises %s as `%s` where SetSketcher::new gives `%s` for the default parameters: a default sketcher "
+                          "would not follow the model of the parameters it reports" % (f, b[f][:100], a[f][:100]))
+    ctx.floor("CTOR-SIB fields compared", n, 8)
